@@ -183,6 +183,36 @@ example : DistinctOwners [loopEx] := by
   intro i j li lj hi hj _
   cases i <;> cases j <;> simp_all
 
+/-! ### CAS retries
+
+Every handler is the function handed to `kv.Client.CAS`; when another actor writes between the handler's run
+and the store's compare, the store runs the handler again on the fresh ring and discards the earlier attempt. -/
+
+/-- **a CAS retry is the handler re-run on the fresh state**: whatever the attempts on stale values decided,
+the outcome of the update is the handler applied to the last value read … -/
+theorem cas_retry_is_rerun (op : Op) (stale : List PDesc) (fresh : PDesc) :
+    casOutcome (fun d => step d op) (stale ++ [fresh]) = some (step fresh op) :=
+  casOutcome_last _ stale fresh
+
+/-- … so the deletion guard holds of the ring the write is applied to (the partition still has to be inactive
+long enough and without owners THERE), however many retries there were, … -/
+theorem cas_retry_deletion_guard (c : Cfg) (now : Int) (stale : List PDesc) (fresh d' : PDesc)
+    (h : casOutcome (fun d => step d (.reconcileOthers c now)) (stale ++ [fresh]) = some (.ok (some d'))) :
+    d'.owners = fresh.owners ∧ (∀ q ∈ d'.parts, q ∈ fresh.parts) ∧
+    ∀ p ∈ fresh.parts, p ∉ d'.parts →
+      c.deleteAfter > 0 ∧ p.id ≠ c.pid ∧ p.state = sInactive ∧ p.stateTs < now - c.deleteAfter ∧ ownersCount fresh p.id = 0 := by
+  rw [cas_retry_is_rerun] at h
+  exact reconcileOthers_guard fresh d' c now (by simpa [step] using h)
+
+/-- … and so does the promotion guard. -/
+theorem cas_retry_promotion_guard (c : Cfg) (now : Int) (stale : List PDesc) (fresh d' : PDesc)
+    (h : casOutcome (fun d => step d (.reconcileOwned c now)) (stale ++ [fresh]) = some (.ok (some d'))) :
+    ∃ p, fresh.get? c.pid = some p ∧ p.state = sPending ∧ p.locked = false ∧
+      ownersCountUpdatedBefore fresh c.pid (now - c.waitDur) ≥ c.waitCount ∧
+      d' = { fresh with parts := setPart { p with state := sActive, stateTs := now } fresh.parts } := by
+  rw [cas_retry_is_rerun] at h
+  exact reconcileOwned_guard fresh d' c now (by simpa [step] using h)
+
 /-! ### replication sets -/
 
 /-- **per-partition replication set** (`GetReplicationSetsForOperation`): exactly the partition's
